@@ -29,11 +29,21 @@ func main() { rp.Main(registry, batchRegistry) }
 
 // ---------------------------------------------------------------------- errors
 
+type chainRun struct {
+	K string `json:"k"` // stack | msg | wrap | wrapf
+	M string `json:"m"`
+	N int    `json:"n"` // the constructor is applied N times in a row
+}
+
 type chainCase struct {
-	Root   string            `json:"root"`
-	Layers []json.RawMessage `json:"layers"`
-	Nil    bool              `json:"nil"`
-	Text   []string          `json:"text"`
+	Root   string     `json:"root"`
+	Layers []chainRun `json:"layers"` // innermost first
+	Depth  int        `json:"depth"`
+	Nil    bool       `json:"nil"`
+	Text   []struct {
+		M string `json:"m"`
+		N int    `json:"n"`
+	} `json:"text"` // outer to inner
 }
 
 func init() {
@@ -56,27 +66,33 @@ func init() {
 			rp.Bug("unknown root %q", cs.Root)
 		}
 		err := root
-		for _, lr := range cs.Layers {
-			var l []string
-			if e := json.Unmarshal(lr, &l); e != nil {
-				panic(e)
+		depth := 0
+		for _, l := range cs.Layers {
+			if l.N < 1 {
+				rp.Bug("run of %d layers", l.N)
 			}
-			switch l[0] {
-			case "stack":
-				err = oe.WithStack(err)
-			case "msg":
-				err = oe.WithMessage(err, l[1])
-			case "wrap":
-				err = oe.Wrap(err, l[1])
-			case "wrapf":
-				err = oe.Wrapf(err, "%s", l[1])
-			default:
-				rp.Bug("unknown layer %q", l[0])
+			for r := 0; r < l.N; r++ {
+				switch l.K {
+				case "stack":
+					err = oe.WithStack(err)
+				case "msg":
+					err = oe.WithMessage(err, l.M)
+				case "wrap":
+					err = oe.Wrap(err, l.M)
+				case "wrapf":
+					err = oe.Wrapf(err, "%s", l.M)
+				default:
+					rp.Bug("unknown layer %q", l.K)
+				}
 			}
+			depth += l.N
+		}
+		if depth != cs.Depth {
+			rp.Bug("depth %d, the case says %d", depth, cs.Depth)
 		}
 		if cs.Nil {
 			if err != nil {
-				return rp.Fail(i, "wrapping nil through %d layers yields %v, must stay nil", len(cs.Layers), err)
+				return rp.Fail(i, "wrapping nil through %d layers yields %v, must stay nil", depth, err)
 			}
 			if oe.Cause(nil) != nil {
 				return rp.Fail(i, "Cause(nil) is not nil")
@@ -87,17 +103,37 @@ func init() {
 			return rp.Fail(i, "wrapping a non-nil error yields nil")
 		}
 		if got := oe.Cause(err); got != root {
-			return rp.Fail(i, "Cause through %d layers is %T %v, not the root value", len(cs.Layers), got, got)
+			r := rp.Fail(i, "Cause through %d layers (%v) is %T %.80q, not the root value", depth, cs.Layers, got, fmt.Sprint(got))
+			if depth > 4 {
+				r.Deviation = "C08/cause-depth-limited"
+			}
+			return r
 		}
-		want := strings.Join(append(append([]string{}, cs.Text...), rootText), ": ")
-		if err.Error() != want {
-			return rp.Fail(i, "message chain %q, want %q", err.Error(), want)
+		var want strings.Builder
+		for _, t := range cs.Text {
+			want.WriteString(strings.Repeat(t.M+": ", t.N))
 		}
-		if s := fmt.Sprintf("%+v|%v|%s|%q", err, err, err, err); !strings.Contains(s, rootText) {
-			return rp.Fail(i, "formatted error lost the root text")
+		want.WriteString(rootText)
+		if got := err.Error(); got != want.String() {
+			return rp.Fail(i, "message chain of %d layers (%v) is %s, want %s", depth, cs.Layers, short(got), short(want.String()))
+		}
+		// %+v prints a stack per layer and every verb builds the whole text again: only for chains of moderate depth
+		if depth <= 100 {
+			if s := fmt.Sprintf("%+v|%v|%s|%q", err, err, err, err); !strings.Contains(s, rootText) {
+				return rp.Fail(i, "formatted error lost the root text")
+			}
 		}
 		return rp.Result{OK: true}
 	}
+	// the deep nestings (runs of up to 1000 layers) are a stage of their own, the replayer is the same
+	registry["errdeep"] = registry["errchain"]
+}
+
+func short(s string) string {
+	if len(s) <= 160 {
+		return fmt.Sprintf("%q", s)
+	}
+	return fmt.Sprintf("%q...%q (%d bytes)", s[:60], s[len(s)-60:], len(s))
 }
 
 // ---------------------------------------------------------------------- framed streams
@@ -106,6 +142,9 @@ type framedCase struct {
 	Kind  string            `json:"kind"`
 	Items []json.RawMessage `json:"items"`
 	Sizes []int             `json:"sizes"`
+	// FramedIo's transport plans to replay at every position, and the segmentations of the read side
+	Plans    []string `json:"plans"`
+	ReadSegs []string `json:"readsegs"`
 }
 
 type rtmpItem struct {
@@ -131,7 +170,26 @@ type framed struct {
 	// read consumes items from r until an error; returns how many complete items it returned and the error;
 	// bad describes a returned item that is not the one written (truncated, duplicated, fabricated)
 	read func(r io.Reader) (n int, err error, bad string)
+	// fired, while a one-shot fault plan is replayed, tells whether the transport has failed yet: a library
+	// call that returns a nil error although the transport failed during it has swallowed the failure
+	// (FramedIo!ErrorSurfaces)
+	fired func() bool
 }
+
+const swallowed = "FAULT SWALLOWED: "
+
+// swallowedBy is what read / write report when a library call returned nil although the transport failed during it.
+func (f *framed) swallowedBy(call string) string {
+	if f.fired != nil && f.fired() {
+		return swallowed + "the transport failed during " + call + ", which returned a nil error"
+	}
+	return ""
+}
+
+// errSwallowed is the writer's way to report the same.
+type errSwallowed struct{ what string }
+
+func (e *errSwallowed) Error() string { return e.what }
 
 func eofClass(err error) bool {
 	c := oe.Cause(err)
@@ -167,6 +225,9 @@ func buildRtmp(cs framedCase, seed int) *framed {
 			if err := p.WriteMessage(m.Build(seed)); err != nil {
 				return k, err
 			}
+			if sw := f.swallowedBy(fmt.Sprintf("WriteMessage #%d", k+1)); sw != "" {
+				return k, &errSwallowed{sw}
+			}
 		}
 		return len(msgs), nil
 	}
@@ -182,6 +243,9 @@ func buildRtmp(cs framedCase, seed int) *framed {
 					return k, err, "a message was returned together with the error"
 				}
 				return k, err, ""
+			}
+			if sw := f.swallowedBy(fmt.Sprintf("ReadMessage #%d", k+1)); sw != "" {
+				return k, nil, sw
 			}
 			if k >= len(msgs) {
 				return k, nil, "a message beyond those written was returned"
@@ -209,9 +273,15 @@ func buildFlv(cs framedCase, seed int) *framed {
 		if err := m.WriteHeader(true, true); err != nil {
 			return 0, err
 		}
+		if sw := f.swallowedBy("WriteHeader"); sw != "" {
+			return 0, &errSwallowed{sw}
+		}
 		for k, t := range tags {
 			if err := m.WriteTag(flv.TagType(t.Type), uint32(t.Ts), ld.FillBytes(t.N, k+1, seed)); err != nil {
 				return k + 1, err
+			}
+			if sw := f.swallowedBy(fmt.Sprintf("WriteTag #%d", k+1)); sw != "" {
+				return k + 1, &errSwallowed{sw}
 			}
 		}
 		return len(tags) + 1, nil
@@ -222,6 +292,9 @@ func buildFlv(cs framedCase, seed int) *framed {
 		if err != nil {
 			return 0, err, ""
 		}
+		if sw := f.swallowedBy("ReadHeader"); sw != "" {
+			return 0, nil, sw
+		}
 		if ver != 1 || !hv || !ha {
 			return 0, nil, "header values differ"
 		}
@@ -230,12 +303,18 @@ func buildFlv(cs framedCase, seed int) *framed {
 			if err != nil {
 				return k + 1, err, ""
 			}
+			if sw := f.swallowedBy(fmt.Sprintf("ReadTagHeader #%d", k+1)); sw != "" {
+				return k + 1, nil, sw
+			}
 			body, err := d.ReadTag(size)
 			if err != nil {
 				if body != nil {
 					return k + 1, err, "a tag body was returned together with the error"
 				}
 				return k + 1, err, ""
+			}
+			if sw := f.swallowedBy(fmt.Sprintf("ReadTag #%d", k+1)); sw != "" {
+				return k + 1, nil, sw
 			}
 			if k >= len(tags) {
 				return k + 1, nil, "a tag beyond those written was returned"
@@ -256,11 +335,20 @@ func buildHandshake(seed int) *framed {
 		if err := hs.WriteC0S0(w); err != nil {
 			return 0, err
 		}
+		if sw := f.swallowedBy("WriteC0S0"); sw != "" {
+			return 0, &errSwallowed{sw}
+		}
 		if err := hs.WriteC1S1(w); err != nil {
 			return 1, err
 		}
+		if sw := f.swallowedBy("WriteC1S1"); sw != "" {
+			return 1, &errSwallowed{sw}
+		}
 		if err := hs.WriteC2S2(w, ld.FillBytes(1536, 3, seed)); err != nil {
 			return 2, err
+		}
+		if sw := f.swallowedBy("WriteC2S2"); sw != "" {
+			return 2, &errSwallowed{sw}
 		}
 		return 3, nil
 	}
@@ -270,17 +358,26 @@ func buildHandshake(seed int) *framed {
 		if err != nil {
 			return 0, err, map[bool]string{true: "bytes returned together with the error"}[b != nil]
 		}
+		if sw := f.swallowedBy("ReadC0S0"); sw != "" {
+			return 0, nil, sw
+		}
 		if len(b) != 1 || b[0] != 3 {
 			return 0, nil, "C0/S0 differs"
 		}
 		if b, err = hs.ReadC1S1(r); err != nil {
 			return 1, err, map[bool]string{true: "bytes returned together with the error"}[b != nil]
 		}
+		if sw := f.swallowedBy("ReadC1S1"); sw != "" {
+			return 1, nil, sw
+		}
 		if len(b) != 1536 {
 			return 1, nil, "C1/S1 length differs"
 		}
 		if b, err = hs.ReadC2S2(r); err != nil {
 			return 2, err, map[bool]string{true: "bytes returned together with the error"}[b != nil]
+		}
+		if sw := f.swallowedBy("ReadC2S2"); sw != "" {
+			return 2, nil, sw
 		}
 		if !bytes.Equal(b, ld.FillBytes(1536, 3, seed)) {
 			return 2, nil, "C2/S2 differs"
@@ -290,13 +387,19 @@ func buildHandshake(seed int) *framed {
 	return f
 }
 
-// offsets lists the cut offsets to try: all of them for small streams, else every boundary +-3,
-// the first 24 bytes of every item and a stride.
-func offsets(f *framed, tier string) []int {
+// offsets lists the cut offsets to try: all of them for small streams (quick: up to 4 kB, thorough: up to 20 kB, and up
+// to 150 kB for the streams on which `full` falls, a seeded 1/24 of the cases: a 66 kB stream costs 20 s at every
+// offset, 130 kB four times that); else every item boundary +-3, the first 24 bytes of every item, every multiple of the
+// 4 kB buffers +-1 and a stride (quick 509; thorough 61, coprime to the 128 + 1 byte chunk pattern, so that every position
+// within a chunk is hit).
+func offsets(f *framed, tier string, full bool) []int {
 	total := len(f.wire)
-	lim := 4000
+	lim, stride := 4000, 509
 	if tier == "thorough" {
-		lim = 150000
+		lim, stride = 20000, 61
+		if full {
+			lim = 150000
+		}
 	}
 	if total <= lim {
 		all := make([]int, total+1)
@@ -323,8 +426,15 @@ func offsets(f *framed, tier string) []int {
 		}
 		start = e
 	}
-	for n := 0; n <= total; n += 509 {
+	for n := 0; n <= total; n += stride {
 		add(n)
+	}
+	if tier == "thorough" {
+		for n := 4096; n <= total; n += 4096 {
+			add(n - 1)
+			add(n)
+			add(n + 1)
+		}
 	}
 	return out
 }
@@ -367,9 +477,46 @@ func init() {
 		}
 		info["spec_offsets_match"] = pred
 
+		if len(cs.Plans) == 0 || len(cs.ReadSegs) == 0 {
+			rp.Bug("the case names no transport plans / read segmentations")
+		}
+		plans := map[string]bool{}
+		for _, pl := range cs.Plans {
+			switch pl {
+			case "cut", "readfault", "writefault":
+				plans[pl] = true
+			default:
+				rp.Bug("unknown plan %q", pl)
+			}
+		}
+		atBoundary := func(n int) bool {
+			if n == 0 {
+				return true
+			}
+			for _, e := range f.ends {
+				if e == n {
+					return true
+				}
+			}
+			return false
+		}
+		// a fault that the library did not report: the named deviation when it hit the first transport call of an item
+		swallowedAt := func(r rp.Result, moved int) rp.Result {
+			if atBoundary(moved) {
+				r.Deviation = "C08/fault-swallowed-at-boundary"
+			} else {
+				r.Deviation = "C08/fault-swallowed"
+			}
+			return r
+		}
+
 		nCuts, nFaults := 0, 0
 		// (1) every cut offset: exactly the completely transferred items, then an EOF-class error
-		for _, cut := range offsets(f, c.Tier) {
+		full := rp.ContentHash(raw)%24 == c.Seed%24
+		for _, cut := range offsets(f, c.Tier, full) {
+			if !plans["cut"] {
+				break
+			}
 			rp.Alive()
 			for _, seg := range []string{"whole", "one", "whole+eof"} {
 				if seg == "one" && len(f.wire) > 6000 && cut%7 != 0 {
@@ -398,59 +545,89 @@ func init() {
 				}
 			}
 		}
-		// (2) an injected error at every read call index: root cause is that very value
-		for _, seg := range []string{"whole", "random"} {
-			probe := transport.NewStream()
-			probe.Seg = transport.SegmenterByName(seg, int64(c.Seed)+11)
-			probe.Write(f.wire)
-			probe.CloseWrite()
-			f.read(probe)
-			calls, _ := probe.Calls()
-			step := 1
-			if calls > 400 {
-				step = calls / 400
+		// (2) the transport fails ONCE, at every read call index of every segmentation (later calls work again and
+		// the stream is complete): the library call in progress reports it, root cause that very value, after exactly
+		// the items completely delivered before
+		for _, seg := range cs.ReadSegs {
+			if !plans["readfault"] {
+				break
 			}
-			for k := 0; k < calls; k += step {
-				rp.Alive()
+			mk := func() *transport.Stream {
 				s := transport.NewStream()
-				s.Seg = transport.SegmenterByName(seg, int64(c.Seed)+11)
+				switch seg {
+				case "whole", "one", "random":
+					s.Seg = transport.SegmenterByName(seg, int64(c.Seed)+11)
+				case "aligned":
+					s.Seg = alignedSeg(f.ends, len(f.wire))
+				default:
+					rp.Bug("unknown segmentation %q", seg)
+				}
 				s.Write(f.wire)
 				s.CloseWrite()
+				return s
+			}
+			probe := mk()
+			f.read(probe)
+			calls, _ := probe.Calls()
+			for _, k := range callIndices(calls, 400, seg, f.ends, c.Tier) {
+				rp.Alive()
+				s := mk()
 				sent := &transport.ErrInjected{What: fmt.Sprintf("read call %d", k), Inner: io.ErrNoProgress}
 				s.FailRead(k, sent)
-				got, err, bad := f.read(s)
+				tap := &faultTap{k: k, moved: s.Consumed, r: s}
+				fired := func() bool { return tap.n > k }
+				f.fired = fired
+				got, err, bad := f.read(tap)
+				f.fired = nil
 				nFaults++
+				delivered := s.Consumed()
+				if strings.HasPrefix(bad, swallowed) {
+					return swallowedAt(rp.Fail(i, "%s read fault at call %d (%s) after %d bytes (ends %v): %s", cs.Kind, k, seg, tap.at, f.ends, bad), tap.at)
+				}
 				if bad != "" {
 					return rp.Fail(i, "%s read fault at call %d (%s): %s", cs.Kind, k, seg, bad)
 				}
 				if err == nil {
 					return rp.Fail(i, "%s read fault at call %d (%s): no error", cs.Kind, k, seg)
 				}
-				delivered := s.Consumed()
-				if want := complete(f.ends, delivered); got != want && !(cs.Kind == "handshake" && got == 3) {
+				if want := complete(f.ends, delivered); got != want {
 					return rp.Fail(i, "%s read fault at call %d (%s) after %d bytes: %d items returned, %d were completely transferred", cs.Kind, k, seg, delivered, got, want)
 				}
-				if cause := oe.Cause(err); cause != error(sent) && !(delivered == len(f.wire) && eofClass(err)) {
-					return rp.Fail(i, "%s read fault at call %d (%s): root cause of %q is %T %v, not the injected error", cs.Kind, k, seg, err, cause, cause)
+				cause := oe.Cause(err)
+				if fired() && cause != error(sent) {
+					r := rp.Fail(i, "%s read fault at call %d (%s) after %d bytes (ends %v): the call during which the transport failed returned %q, root cause %T %v, not the transport's error", cs.Kind, k, seg, tap.at, f.ends, err, cause, cause)
+					if eofClass(err) {
+						// the failure was dropped and the end of the stream found behind it is reported instead
+						r = swallowedAt(r, tap.at)
+					}
+					return r
+				}
+				if !fired() && !(delivered == len(f.wire) && eofClass(err)) {
+					return rp.Fail(i, "%s read fault at call %d (%s): the reader stopped after %d calls and %d of %d bytes with %q", cs.Kind, k, seg, calls, delivered, len(f.wire), err)
 				}
 			}
 		}
-		// (3) an injected error at every write call index: the write in progress fails with that root
+		// (3) the transport fails ONCE, at every write call index: the write in progress fails with that root
 		// cause, what reached the transport is a prefix, and a reader of it gets exactly the complete items
 		probe := transport.NewStream()
 		f.write(probe)
 		_, wcalls := probe.Calls()
-		step := 1
-		if wcalls > 300 {
-			step = wcalls / 300
-		}
-		for k := 0; k < wcalls; k += step {
+		for _, k := range callIndices(wcalls, 300, "", nil, c.Tier) {
+			if !plans["writefault"] {
+				break
+			}
 			rp.Alive()
 			s := transport.NewStream()
 			sent := &transport.ErrInjected{What: fmt.Sprintf("write call %d", k), Inner: io.ErrShortWrite}
 			s.FailWrite(k, sent)
-			_, err := f.write(s)
+			tap := &faultTap{k: k, moved: s.Len, w: s}
+			f.fired = func() bool { return tap.n > k }
+			_, err := f.write(tap)
+			f.fired = nil
 			nFaults++
+			if sw, ok := err.(*errSwallowed); ok {
+				return swallowedAt(rp.Fail(i, "%s write fault at call %d after %d bytes (ends %v): %s", cs.Kind, k, tap.at, f.ends, sw.what), tap.at)
+			}
 			if err == nil {
 				return rp.Fail(i, "%s write fault at call %d: the writer reported no error", cs.Kind, k)
 			}
@@ -472,6 +649,71 @@ func init() {
 		info["cuts"], info["faults"] = nCuts, nFaults
 		return rp.Result{OK: true, Info: info}
 	}
+}
+
+// faultTap sits between the library and a transport.Stream whose call k fails: it counts the calls (n > k: the
+// transport has failed) and notes how many bytes had moved when call k was issued (FramedIo: `moved` at the failure).
+type faultTap struct {
+	k, n, at int
+	moved    func() int
+	r        io.Reader
+	w        io.Writer
+}
+
+func (t *faultTap) note() {
+	if t.n == t.k {
+		t.at = t.moved()
+	}
+	t.n++
+}
+
+func (t *faultTap) Read(p []byte) (int, error)  { t.note(); return t.r.Read(p) }
+func (t *faultTap) Write(p []byte) (int, error) { t.note(); return t.w.Write(p) }
+
+// alignedSeg cuts the stream into pieces that end exactly at the item ends: the transport call after an item end
+// is the first one of the next item (FramedIo: moved = EndOf(incall - 1) when the call is issued).
+func alignedSeg(ends []int, total int) transport.Segmenter {
+	return func(avail int) int {
+		off := total - avail
+		for _, e := range ends {
+			if e > off {
+				return e - off
+			}
+		}
+		return avail
+	}
+}
+
+// callIndices lists the call indices 0..calls-1 at which to inject: all of them up to max, else a stride plus (one-byte
+// segmentation: call k is issued after exactly k bytes) the calls at every item end +-2.
+func callIndices(calls, max int, seg string, ends []int, tier string) []int {
+	if seg == "one" && tier != "thorough" && max > 150 {
+		max = 150
+	}
+	step := 1
+	if calls > max {
+		step = calls / max
+	}
+	seen := map[int]bool{}
+	var out []int
+	add := func(k int) {
+		if k >= 0 && k < calls && !seen[k] {
+			seen[k] = true
+			out = append(out, k)
+		}
+	}
+	for k := 0; k < calls; k += step {
+		add(k)
+	}
+	if seg == "one" {
+		for _, e := range ends {
+			for d := -2; d <= 2; d++ {
+				add(e + d)
+			}
+		}
+	}
+	add(calls - 1)
+	return out
 }
 
 // endsOf determines the end offset of every item by writing the items one prefix at a time.
